@@ -207,7 +207,92 @@ def assert_tokens(rep):
     return n
 
 
+def h_valueinit(T, N):
+    from ..harness import Harness
+    body = "  covfie::array::array<%s, %d> a{};\n  covfie::array::array<%s, %d> b = covfie::array::array<%s, %d>();\n  %s" % (
+        T, N, T, N, T, N, " ".join("out[%d] = a[%d]; out[%d] = b[%d];" % (2 * k, k, 2 * k + 1, k) for k in range(N)))
+    return Harness("valueinit_%s%d" % (T.replace("std::", ""), N), [], body, out=(T, 2 * N), meta={"T": T, "N": N})
+
+
+def init_rules(rep, tier):
+    """value-initialisation zero-fills: covfie::array::array{} and freshly allocated field storage"""
+    from . import c01
+    hs = [h_valueinit("float", 3), h_valueinit("std::size_t", 2), h_valueinit("double", 1)]
+    al = [c01.h_alloc("float", 3), c01.h_alloc("double", 2)]
+    st = []
+    from ..harness import Harness
+    st.append(Harness("strided_default", [], "  strided<cv::size3, array<cv::float3>>::owning_data_t o;\n  out[0] = o.get_configuration()[0]; out[1] = o.get_configuration()[1]; out[2] = o.get_configuration()[2]; out[3] = o.get_backend().get_configuration()[0];",
+                      out=("std::size_t", 4), meta={}))
+    harness.build(hs + al + st, "c15init")
+    for h in hs + st:
+        inst = h.name
+        if h.error:
+            loc, msg = harness.first_error(h)
+            rep.fail("C15.init", inst, loc, "does not compile: " + msg)
+            continue
+        s = ir.Sym(h.func)
+        outs = {k: ir.ungate(v) for k, v in s.outputs(h.out_index, 8 if "size_t" in h.out[0] or h.out[0] == "double" else 4, ir_ty(h.out[0])).items()}
+        n = h.out[1]
+        esz = 8 if "size_t" in h.out[0] or h.out[0] == "double" else 4
+        bad = [k for k in range(n) if outs.get(esz * k) is None or ir.has_undef(outs[esz * k])]
+        if bad:
+            rep.fail("C15.init", inst, "lib/core/covfie/core/array.hpp", "value-initialised object has an indeterminate component (%d): value-initialisation no longer zero-fills" % bad[0])
+        else:
+            rep.ok("C15.init", inst)
+    for h in al:
+        inst = h.name
+        if h.error:
+            continue
+        s = ir.Sym(h.func)
+        news = [c for c in s.calls if c.name == "_Znam"]
+        zero = [x for x in s.stores if isinstance(x.val, tuple) and x.val[0] == 'memset' and x.val[1] == ('ci', 0, 8) and news and x.base == ('ret', news[0].n)]
+        if news and zero and zero[0].size == news[0].args[0]:
+            rep.ok("C15.init", inst)
+        else:
+            rep.fail("C15.init", inst, "lib/core/covfie/core/backend/primitive/array.hpp", "freshly allocated field storage is not zero-filled: reading a cell before writing it reads indeterminate memory")
+
+
+def ir_ty(ct):
+    return {"float": "float", "double": "double"}.get(ct, "i64")
+
+
+def io_buffer_rule(rep, tier):
+    """every istream::read writes a constant number of bytes that fits the object it targets"""
+    from . import io, io_array
+    for hw, hr, fw, fr in io_array.facts(tier):
+        inst = "array<%s,%d> reader" % (hr.meta["T"], hr.meta["M"])
+        if hr.error or fr is None:
+            continue
+        s = fr["sym"]
+        why = None
+        for c in s.calls:
+            if c.name != io.READ:
+                continue
+            dst, n = c.args[1], c.args[2]
+            if n[0] != 'ci':
+                why = "a read transfers a number of bytes that depends on %s into a buffer" % ("the stream's contents" if io.wr_atoms(n) else "runtime values")
+                if dst[0] == 'ptr' and dst[1][0] in ('alloca', 'ret'):
+                    why += " of fixed size"
+                break
+            if dst[0] == 'ptr' and dst[1][0] == 'alloca' and isinstance(dst[2], int):
+                size = getattr(s, "alloca_size", {}).get(dst[1][1])
+                if size is not None and dst[2] + n[1] > size:
+                    why = "a read of %d bytes targets a %d-byte local object at offset %d" % (n[1], size, dst[2])
+                    break
+            if dst[0] == 'ptr' and dst[1][0] == 'ret':
+                newc = next((x for x in s.calls if x.n == dst[1][1]), None)
+                if newc is not None and newc.name in ("_Znam", "_Znwm") and newc.args and newc.args[0][0] == 'ci' and isinstance(dst[2], int) and dst[2] + n[1] > newc.args[0][1]:
+                    why = "a read of %d bytes targets a %d-byte heap buffer" % (n[1], newc.args[0][1])
+                    break
+        if why:
+            rep.fail("C15.U2-io", inst, "lib/core/covfie/core/backend/primitive/array.hpp", why)
+        else:
+            rep.ok("C15.U2-io", inst)
+
+
 def declare(rep):
+    rep.rule("C15.init", "value-initialisation zero-fills covfie::array::array, default strided extents and freshly allocated field storage", floor=5)
+    rep.rule("C15.U2-io", "every stream read transfers a constant number of bytes that fits its destination object", floor=2)
     rep.rule("C15.G-RET", "clang -Wreturn-type/-Wuninitialized families silent over the explicitly instantiated stack universe (NDEBUG and debug parse)", floor=2)
     rep.rule("C15.U6", "no undef/poison reaches a backend query, an output or the query's guard in any harness (both builds)", floor=150)
     rep.rule("C15.U2", "reads of a queried backend value stay inside the value (both builds)", floor=150)
@@ -260,10 +345,12 @@ def run(rep, tier):
                 rep.fail("C15.U4-equal", h.name, "harness " + h.name, why)
             else:
                 rep.ok("C15.U4-equal", h.name)
+    init_rules(rep, tier)
+    io_buffer_rule(rep, tier)
     # in-bounds access to heap storage needs the allocation premise of C01: every conversion sizes its buffer for the index range
     from . import c05, c14
     c05.declare(rep)
-    for r in ("C05.f", "C05.a", "C05.cuda", "C05.b", "C05.b-hilbert", "C05.d", "C05.e"):
+    for r in ("C05.g", "C05.f", "C05.a", "C05.cuda", "C05.b", "C05.b-hilbert", "C05.d", "C05.e"):
         rep.rules.pop(r, None)
     c05.run_conversions(c14.only(rep), "quick")
     rep.extra["harness_builds"] = total
